@@ -441,7 +441,7 @@ var errInj error = errors.New("injected-io-error")
 func SetErrKind(k int) {
 	switch k {
 	case 1:
-		errInj = fmt.Errorf("injected: %w", fs.ErrPermission)
+		errInj = syscall.EACCES // os.IsPermission(err) and errors.Is(err, fs.ErrPermission)
 	case 2:
 		errInj = syscall.ENOENT // errors.Is(err, fs.ErrNotExist)
 	default:
